@@ -23,6 +23,8 @@ type snode struct {
 	lazy     bool
 	ghost    bool // preceded by a computed-name include of a missing file with if_exists and with-pairs (renders nothing, binds nothing)
 	oldStyle bool
+	wrap     string // if-node printed as a transparent construct instead: autoescape-off, autoescape-on, spaceless, filter
+	ssi      bool   // include-node printed as {% ssi "file" parsed %}
 }
 
 var c12Pool = []string{"a", "b", "c", "d"}
@@ -150,6 +152,11 @@ func (g *c12Gen) node(depth int) *snode {
 		return nd
 	case 7:
 		nd := &snode{kind: "if", cond: r.Chance(70)}
+		if r.Chance(45) {
+			// constructs that are no scopes at all: what is bound inside stays bound after them
+			nd.cond = true
+			nd.wrap = r.Pick([]string{"autoescape-off", "autoescape-on", "spaceless", "filter"})
+		}
 		// a set inside a branch that is not taken never happens; names bound inside a taken branch stay bound: handled by the interpreter.
 		saved, savedOnly := g.macroParams, g.onlyNames
 		nd.body = g.body(depth - 1)
@@ -194,6 +201,10 @@ func (g *c12Gen) node(depth int) *snode {
 		}
 		if len(nd.pairs) == 0 {
 			nd.only = false // `only` needs a with-clause
+			if !nd.lazy && r.Chance(50) {
+				nd.ssi = true // the same composition written as ssi … parsed (sees the includer's variables)
+				nd.ghost = false
+			}
 		}
 		savedOnly := g.onlyNames
 		if nd.only {
@@ -242,7 +253,18 @@ func c12Src(nodes []*snode, files map[string]string, g *c12Gen) string {
 			if n.cond {
 				c = "1"
 			}
-			sb.WriteString("{% if " + c + " %}" + c12Src(n.body, files, g) + "{% endif %}")
+			switch n.wrap {
+			case "autoescape-off":
+				sb.WriteString("{% autoescape off %}" + c12Src(n.body, files, g) + "{% endautoescape %}")
+			case "autoescape-on":
+				sb.WriteString("{% autoescape on %}" + c12Src(n.body, files, g) + "{% endautoescape %}")
+			case "spaceless":
+				sb.WriteString("{% spaceless %}" + c12Src(n.body, files, g) + "{% endspaceless %}")
+			case "filter":
+				sb.WriteString("{% filter cut:\"~\" %}" + c12Src(n.body, files, g) + "{% endfilter %}")
+			default:
+				sb.WriteString("{% if " + c + " %}" + c12Src(n.body, files, g) + "{% endif %}")
+			}
 		case "block":
 			sb.WriteString("{% block " + n.name + " %}" + c12Src(n.body, files, g) + "{% endblock %}")
 		case "call":
@@ -251,6 +273,10 @@ func c12Src(nodes []*snode, files map[string]string, g *c12Gen) string {
 			files[n.file] = c12Src(g.files[n.file], files, g)
 			if n.ghost {
 				sb.WriteString(`{% include nofile if_exists with a="ghost_a" b="ghost_b" c="ghost_c" g="ghost_g" %}`)
+			}
+			if n.ssi {
+				sb.WriteString("{% ssi \"" + n.file + "\" parsed %}")
+				continue
 			}
 			if n.lazy {
 				sb.WriteString("{% include fname_" + strings.Trim(n.file, "/.tpl") + "")
